@@ -32,7 +32,7 @@ CHECKS.update({
 })
 CHECKS.update({
  'C01': dict(
-   text="Whole-run Coq theorem (every rule, arithmetic, profile, fuel; axiom-free): a count that ends normally leaves no candidate hopeful -- everyone is elected, defeated or withdrawn (Hoare logic over the rule command trees: every exit passes a settling micro-operation). Termination within budget, winners = min(seats, electable) and 'withdrawn untouched' are decided by full-outcome correspondence (model vs code) plus the C01 oracle on every generated election; the crash outcomes of meek/warren under guarded arithmetic are reproduced inside Coq (refuted Example) and listed as open findings K2/K3.",
+   text="Whole-run Coq theorem (every rule, arithmetic, profile, fuel; axiom-free): a count that ends normally leaves no candidate hopeful -- everyone is elected, defeated or withdrawn (Hoare logic over the rule command trees: every exit passes a settling micro-operation). Termination within budget, winners = min(seats, electable) and 'withdrawn untouched' are decided by full-outcome correspondence (model vs code) plus the C01 oracle on every generated election; withdrawn candidates stay withdrawn in every snapshot (whole-run forward-status theorem, all rules but QPQ); the crash outcomes of meek/warren under guarded arithmetic with guard>0 are reproduced inside Coq (refuted Example) and listed as open findings K2/K14 (the IndexError K3 is repaired: fix F11, with a theorem that the tied list is never empty).",
    note="Trusted: Coq kernel, hand model of the 8 rule modules tied by trace correspondence, extraction, harness. Termination and seat count are _partial (oracle + correspondence, CPU budget for rational Meek).",
    technique="Coq Hoare-logic proof over a hand model + differential correspondence + oracle", ref="DESIGN.md §6 C01"),
  'C02': dict(
@@ -56,7 +56,7 @@ CHECKS.update({
    note="Per-operation theorems (_partial for the whole-run invariant).",
    technique="Coq proof per micro-operation + ballot-level differential correspondence + oracle", ref="DESIGN.md §6 C06"),
  'C07': dict(
-   text="Coq theorems per micro-operation: candidates offered for single exclusion are exactly the hopefuls at the minimum tally; breakTie picks among the tied, silently for one, else logs exactly one tie action naming set and choice; py_sort returns a permutation for any (even non-transitive) comparison. Batches, largest-surplus-first, Scottish prior stage, tie-order independence: oracle (incl. re-running under a permuted tie order) + values-scope correspondence.",
+   text="Coq theorems per micro-operation: candidates offered for single exclusion are exactly the hopefuls at the minimum tally; breakTie picks among the tied, silently for one, else logs exactly one tie action naming set and choice; py_sort returns a permutation for any (even non-transitive) comparison; the Meek/Warren defeat step never offers an empty list to breakTie (Fixed, Guarded, Rational; after fix F11). Batches, largest-surplus-first, Scottish prior stage, tie-order independence: oracle (incl. re-running under a permuted tie order) + values-scope correspondence.",
    note="_partial for whole-run and for batches; Guarded fuzzy comparisons covered by correspondence only.",
    technique="Coq proof per micro-operation + differential correspondence + metamorphic oracle", ref="DESIGN.md §6 C07"),
  'C08': dict(
@@ -64,8 +64,8 @@ CHECKS.update({
    note="_partial; K1/K5 open findings.",
    technique="Coq proof per micro-operation + refutation by evaluation + differential correspondence + oracle", ref="DESIGN.md §6 C08"),
  'C09': dict(
-   text="Whole-run Coq theorem (all rules, arithmetics, profiles, fuel): round numbers in the record never decrease and every recorded round lies between 0 and the current round (monotone-history preorder lifted by exec_steps). Status transitions and seat bounds: states-scope correspondence + transition oracle on every pair of consecutive snapshots.",
-   note="Transition/seat clauses _partial (oracle + correspondence); their whole-run theorem is an open obligation.",
+   text="Whole-run Coq theorem (all rules, arithmetics, profiles, fuel): round numbers in the record never decrease and every recorded round lies between 0 and the current round (monotone-history preorder lifted by exec_steps); for every rule except QPQ (whose restart un-elects, as the property allows) statuses only move forward between ANY two snapshots of a count that ends normally, from the initial statuses to each snapshot and from each snapshot to the final statuses (hopeful -> elected[pending -> not pending] | defeated; withdrawn fixed). Seat bounds are FALSE for meek under guarded arithmetic with guard>0 (refuted Example inside Coq: 4 elected for 3 seats; open finding K13); seat bounds, QPQ transitions and crashed runs otherwise: states-scope correspondence + transition oracle on every pair of consecutive snapshots.",
+   note="Seat-bound clause _partial (oracle + correspondence + machine-checked refutation for meek/guarded).",
    technique="Coq whole-run proof (monotone history) + differential correspondence + oracle", ref="DESIGN.md §6 C09"),
  'C10': dict(
    text="Coq: two texts laying out the same tokens with any Unicode whitespace/line breaks parse to the same result (corollary of the C15 tokenizer theorems; comments via the C15 comment lemmas), and the count is a function of the profile. Line order / multiplier split-merge / nicknames: metamorphic oracle (re-presented file must give byte-identical record, report, dump) + full-trace correspondence. Open finding K7 (Guarded statistics in the report depend on multipliers).",
